@@ -102,14 +102,25 @@ func (w *walker) add(l Leaf) { w.leaves = append(w.leaves, l) }
 func (w *walker) walk(path string, v reflect.Value) {
 	t := v.Type()
 	if w.skip(t) {
-		nilness := uint64(1)
+		// opaque: contents are not compared; Len records nil-ness, Hash the identity of the referenced object
+		// (so that "the object now points at another PRNG" is visible in before/after diffs of ONE object,
+		// while original-vs-copy comparisons only look at nil-ness)
+		nilness, ident := 1, uint64(1)
 		switch v.Kind() {
-		case reflect.Ptr, reflect.Interface, reflect.Slice, reflect.Map:
+		case reflect.Ptr, reflect.Map, reflect.Slice:
 			if v.IsNil() {
-				nilness = 0
+				nilness, ident = 0, 0
+			} else {
+				ident = uint64(v.Pointer())
+			}
+		case reflect.Interface:
+			if v.IsNil() {
+				nilness, ident = 0, 0
+			} else if e := v.Elem(); e.Kind() == reflect.Ptr {
+				ident = uint64(e.Pointer())
 			}
 		}
-		w.add(Leaf{Path: path, Hash: nilness, Kind: "opaque"})
+		w.add(Leaf{Path: path, Hash: ident, Len: nilness, Kind: "opaque"})
 		return
 	}
 	switch v.Kind() {
@@ -323,7 +334,11 @@ func StructDiff(orig, cp *Snapshot, rootA, rootB string) StructDiffResult {
 			continue
 		}
 		switch l.Kind {
-		case "scalar", "opaque", "func":
+		case "opaque":
+			if m.Len != l.Len {
+				r.Shape = append(r.Shape, p+" (nil in one, set in the other)")
+			}
+		case "scalar", "func":
 			if m.Hash != l.Hash {
 				r.Shape = append(r.Shape, p+" (value differs)")
 			}
